@@ -233,7 +233,7 @@ def run_C16(ctx, R):
     _per_config(ctx, R, tab.tab9)
     _scoped(ctx, R, lst.lst1, C16_ENTRIES, 6)
     _scoped(ctx, R, out.out5, C16_ENTRIES, 3)
-    _scoped(ctx, R, out.out6, C16_ENTRIES, 1)
+    _scoped(ctx, R, lambda units, r: out.out6(units, r, unit_names=('cJSON_Utils.c',)), C16_ENTRIES, 1)
     _per_config(ctx, R, utilsx.pfx1)
     from .rules import shape
     _per_config(ctx, R, lambda units, r: shape.shp1(units, r, only_unit='cJSON_Utils.c'))
@@ -363,7 +363,7 @@ def run_C13(ctx, R):
     def minify_out(units, r):
         tmp = Results(config=r.config)
         out.out5(units, tmp, only=set(bnd3.MINIFY))
-        out.out6(units, tmp)
+        out.out6(units, tmp, unit_names=('cJSON.c',))
         for o in tmp.obs:
             if o.function in bnd3.MINIFY:
                 r.obs.append(o)
